@@ -37,9 +37,12 @@ TRUSTED_BASE = [
     "regenerated tables Gen/Layout.lean (LAParams defaults, Plane gridsize) from pdfminer/layout.py, utils.py",
     "exact rationals stand for Python floats (no rounding modelled); Python str.isspace modelled by a code-point table "
     "that the harness compares with the interpreter on every run",
-    "object identity (id()) order is not modelled by the compiled driver: when two live heap entries of "
-    "group_textboxes have equal distance it reports a tie and only the merge-order-independent part of the tree is "
-    "compared; the theorems, however, are proved for EVERY heap comparison, hence for every id() order",
+    "heap of group_textboxes: modelled as a list popped at its least element under the tuple order "
+    "(skip_isany, d, seq1, seq2) with creation numbers (the code's order since fix 0d18780; the shape of the heap "
+    "tuples is re-checked by the translator on every run); C08_heap_order proves that this order is total and "
+    "antisymmetric and C08_pop_least that popMin returns THE least entry, so heapq's internal layout cannot matter; "
+    "cases with equal minimal distances (flag `tie`) are compared completely; the theorems are moreover proved for "
+    "EVERY heap comparison",
 ]
 ASSUMPTIONS = [
     "coordinates and LAParams are exact rationals (fractions.Fraction on the Python side); IEEE rounding is not modelled",
@@ -65,6 +68,19 @@ STATEMENT_STATUS: Dict[str, str] = {
     "C08_box_uniform": "proved (a box only holds lines of its own class)",
     "C08_conserve_glyphs_figures": "proved (figures inside figures, any depth, all_texts on or off)",
     "C08_conserve_glyphs_nested": "proved: multiset of glyphs over the WHOLE page tree incl. nested figures is conserved",
+    "C08_heap_order": "proved (HEntry.le = tuple order (skip_isany, d, seq1, seq2) is total, transitive, antisymmetric)",
+    "C08_pop_least": "proved (popMin returns a member below every entry, the rest is the heap minus it, and it is the "
+                     "ONLY least member: independent of heapq's layout); tied to heapq.heappop by op `heapmin`",
+    "C08_heap_shape": "proved over the regenerated Gen.Layout.HEAP_SHAPE (pushes, pop, sequence numbers, liveness test "
+                      "of group_textboxes as the model assumes them)",
+    "C08_pop_some": "proved (a non-empty heap pops, for every comparison)",
+    "C08_anno_group_objects": "proved (members of every line of group_objects = word-margin specification of its glyphs)",
+    "C08_anno_exact": "proved (every line of the result has EXACTLY the specified members: glyphs in content order, "
+                      "a space iff the documented predicate holds between consecutive glyphs, one final line break); "
+                      "checked on the implementation's lines by op `annospec`",
+    "C08_detect_vertical": "proved (detect_vertical off: every line, every box and every group at any depth is of the "
+                           "horizontal / LRTB class); oracle: vertical-without-detect_vertical, box-orientation-uniform, group class",
+    "C08_no_glyphs": "proved (a page without glyphs is returned unchanged, no groups)",
     "C08_single_root": "proved (group_textboxes ends with at most one object in the plane, for every heap comparison)",
 }
 
@@ -176,6 +192,53 @@ def uniform_failure(ctx: C.Ctx, case):
     return None
 
 
+def anno_requests(case, page):
+    """One request per text line (in a box or kept as an empty line) of every analysed container: the line's members
+    must be EXACTLY what the word-margin specification (`Spec.lineElemsBreak`, theorem C08_anno_exact) prescribes
+    for the line's glyphs - every space and line-break annotation accounted for, nothing else inserted."""
+    from pdfminer.layout import LTChar, LTTextBox, LTTextLine, LTTextLineVertical
+    la = case["la"]
+    reqs, meta = [], []
+    for path, mode, bbox, items in L.containers(case):
+        if mode == "fig0":
+            continue
+        cont = L.find_container(page, path)
+        if cont is None:
+            continue
+        lines = []
+        for o in cont:
+            if isinstance(o, LTTextBox):
+                lines += list(o)
+            elif isinstance(o, LTTextLine):
+                lines.append(o)
+        for l in lines:
+            chars = [e for e in l if isinstance(e, LTChar)]
+            try:
+                nums = " ".join("%s %s" % (getattr(c, "_vid", 0), " ".join(L.fs(F(v)) for v in c.bbox)) for c in chars)
+            except (OverflowError, ValueError, TypeError):
+                continue
+            cls = "V" if isinstance(l, LTTextLineVertical) else "H"
+            reqs.append("annospec %s %s %d %s" % (cls, L.fs(F(la["word_margin"])), len(chars), nums))
+            meta.append((cls, " ".join(L.dump_elem(e) for e in l)))
+    return reqs, meta
+
+
+def anno_failure(ctx: C.Ctx, case):
+    """(expected, got) of the first line of `case` whose members differ from the specification, or None."""
+    if ctx.driver is None:
+        return None
+    page, err = L.run_impl(case)
+    if err is not None:
+        return None
+    reqs, meta = anno_requests(case, page)
+    if not reqs:
+        return None
+    for (cls, got), out in zip(meta, ctx.driver.ask(reqs)):
+        if out != got:
+            return ("members of the %s line as specified by word_margin: %s" % (cls, out), got)
+    return None
+
+
 class Batch:
     """Collects model requests of many cases, asks the driver once, compares."""
 
@@ -185,12 +248,18 @@ class Batch:
         self.meta: List[Any] = []
         self.ureqs: List[str] = []
         self.umeta: List[Any] = []
+        self.areqs: List[str] = []
+        self.ameta: List[Any] = []
 
     def add(self, case, page):
         r, m = uniform_requests(case, page)
         if r:
             self.ureqs += r
             self.umeta += [(case, x) for x in m]
+        r, m = anno_requests(case, page)
+        if r:
+            self.areqs += r
+            self.ameta += [(case, x) for x in m]
         for path, mode, bbox, items in L.containers(case):
             cont = L.find_container(page, path)
             if cont is None:
@@ -225,9 +294,38 @@ class Batch:
                                {"check": "line-uniform", "boxes_flow_none": small["la"].get("boxes_flow") is None,
                                 "far": far(small), "glyphs": L.n_glyphs(small)}))
 
+    def flush_anno(self):
+        ctx = self.ctx
+        reqs, meta = self.areqs, self.ameta
+        self.areqs, self.ameta = [], []
+        if ctx.driver is None or not reqs:
+            return
+        bad_cases = []
+        for (case, (cls, got)), out in zip(meta, ctx.driver.ask(reqs)):
+            ctx.branch("anno-line:%s:%s" % (cls, "spaces" if " s" in got else "no-space"))
+            if out != got and not any(c is case for c in bad_cases):
+                bad_cases.append(case)
+        for case in bad_cases[:3]:
+            ctx.branch("fail:anno-exact")
+            seen = ctx.extra.setdefault("_failure_kinds", {})
+            seen["anno-exact"] = seen.get("anno-exact", 0) + 1
+            small = case
+            if seen["anno-exact"] == 1:
+                items = C.ddmin(list(case["items"]), lambda its: anno_failure(ctx, dict(case, items=its)) is not None,
+                                max_tests=80)
+                if anno_failure(ctx, dict(case, items=items)) is not None:
+                    small = dict(case, items=items)
+            elif seen["anno-exact"] > 2:
+                continue
+            hit = anno_failure(ctx, small) or ("members as specified", "differ")
+            ctx.fail(C.Failure("layout analysis breaks C08: anno-exact", small, hit[0], hit[1],
+                               {"check": "anno-exact", "boxes_flow_none": small["la"].get("boxes_flow") is None,
+                                "far": far(small), "glyphs": L.n_glyphs(small)}))
+
     def flush(self):
         ctx = self.ctx
         self.flush_uniform()
+        self.flush_anno()
         if ctx.driver is None or not self.lines:
             self.lines, self.meta = [], []
             return
@@ -241,10 +339,12 @@ class Batch:
             ctx.branch("model:" + flags.replace(" ", "+"))
             if "fuel" in flags:
                 ctx.disagree("analyze.fuel", case, full, "model ran out of fuel")
-            elif "tie" in flags:
-                if m_weak != weak:
-                    ctx.disagree("analyze.weak", {"case": case, "path": path}, weak, m_weak)
             elif m_full != full:
+                # since fix 0d18780 the heap of group_textboxes is ordered by (skip_isany, d, seq1, seq2) with
+                # creation numbers - exactly `HEntry.le` of the model - so a case with equal minimal distances
+                # (flag `tie`) is decided completely, like every other case
+                if "tie" in flags:
+                    ctx.branch("model:tie-full-tree-differs")
                 ctx.disagree("analyze", {"case": case, "path": path}, full, m_full)
         self.lines, self.meta = [], []
 
@@ -291,9 +391,13 @@ def eval_case(ctx: C.Ctx, case, batch: Batch, kind: str) -> None:
              sample={"la": case["la"], "bbox": case["bbox"], "items": case["items"][:6], "n_items": len(case["items"])},
              branch="gen:" + kind)
     if fl:
-        for f in fl[:3]:
-            ctx.branch("fail:" + f[0])
-        report_failure(ctx, case, fl[0])
+        kinds = []
+        for f in fl:
+            if f[0] not in kinds:
+                kinds.append(f[0])
+                ctx.branch("fail:" + f[0])
+                if len(kinds) <= 6:
+                    report_failure(ctx, case, f)      # one (minimised) replay per KIND of broken invariant
 
 
 # --------------------------------------------------------------------------- float mode and the PDF path
@@ -606,6 +710,132 @@ def run_isspace(ctx: C.Ctx) -> None:
         ctx.disagree("isspace", cps[k], exp[k], got[k] if k < len(got) else "?")
 
 
+# --------------------------------------------------------------------------- large-format pages (Plane overflow list)
+
+def gen_large_format(rng):
+    """Pages whose size and whose glyph sizes span several orders of magnitude (10 .. 6000 units; type from 1/2 to
+    2500 units): mixtures of huge and tiny paragraphs, so that text lines / boxes / groups are filed both in the
+    50-unit grid of `utils.Plane` and - covering more than MAXCELLS = 1024 cells - on its overflow list `_big`, in
+    group_textlines AND group_textboxes (add -> find -> remove -> iterate on the same Plane)."""
+    W = F(rng.choice([10, 200, 612, 1500, 3000, 3000, 4000, 6000]))
+    H = F(rng.choice([10, 300, 792, 1500, 3000, 3000, 4000, 6000]))
+    la = L.gen_la(rng, wild=False)
+    if rng.random() < 0.8:
+        la["boxes_flow"] = L.fs(rng.choice([F(1, 2), F(0), F(-1, 2), F(1), F(-1), F(1, 4)]))
+    if rng.random() < 0.7:
+        la["detect_vertical"] = False
+    items, cid = [], 0
+    sizes = [F(1, 2), F(2), F(10), F(12), F(60), F(300), F(900), F(1700), F(1800), F(2500)]
+    npar = rng.randint(2, 5)
+    for k in range(npar):
+        fit = [z for z in sizes if z <= max(W, H)] or [F(1, 2)]
+        size = rng.choice(fit[-3:]) if (k == 0 and rng.random() < 0.7) else rng.choice(fit)
+        rows, cols = rng.randint(1, 3), rng.randint(1, 4)
+        if size >= 300:
+            rows, cols = rng.randint(1, 2), rng.randint(1, 2)
+        x = F(rng.randint(0, max(1, int(W)))) if rng.random() < 0.8 else F(rng.randint(-200, 200))
+        y = F(rng.randint(0, max(1, int(H))))
+        pitch = size * rng.choice([F(1), F(9, 8), F(5, 4), F(2)])
+        for r in range(rows):
+            for c in range(cols):
+                cid += 1
+                x0, y0 = x + c * size, y - r * pitch
+                items.append(["c", cid, L.fs(x0), L.fs(y0), L.fs(x0 + size), L.fs(y0 + size), rng.choice("abcxyz")])
+    if rng.random() < 0.3:
+        cid += 1
+        items.insert(rng.randrange(len(items) + 1), ["o", cid, "1", "1", "20", "20", "rect"])
+    return {"bbox": ["0", "0", L.fs(W), L.fs(H)], "la": la, "items": items}
+
+
+def plane_cells(o) -> int:
+    import math
+    try:
+        nx = math.floor(F(o.x1) / 50) - math.floor(F(o.x0) / 50) + 1
+        ny = math.floor(F(o.y1) / 50) - math.floor(F(o.y0) / 50) + 1
+    except (OverflowError, ValueError, TypeError):
+        return 0
+    return max(nx, 0) * max(ny, 0)
+
+
+def run_large_format(ctx: C.Ctx, batch: "Batch") -> None:
+    from pdfminer.layout import LTTextBox, LTTextGroup
+    rng = ctx.rng
+    for i in range(ctx.n(60, 600)):
+        if not ctx.time_left():
+            break
+        case = gen_large_format(rng)
+        eval_case(ctx, case, batch, "large-format")
+        page, err = L.run_impl(case)
+        if page is None:
+            continue
+        boxes = [o for o in page if isinstance(o, LTTextBox)]
+        nbig = sum(plane_cells(b) > 1024 for b in boxes)
+        nbig_lines = sum(plane_cells(l) > 1024 for b in boxes for l in b)
+        groups = []
+
+        def walk(g):
+            if isinstance(g, LTTextGroup):
+                groups.append(g)
+                for ch in g:
+                    walk(ch)
+        for g in (page.groups or []):
+            walk(g)
+        ctx.branch("plane:overflow-boxes:%s/boxes:%s" % ("0" if nbig == 0 else "1+", "1" if len(boxes) <= 1 else "2+"))
+        if nbig_lines:
+            ctx.branch("plane:overflow-line-in-group_textlines")
+        if any(plane_cells(g) > 1024 for g in groups):
+            ctx.branch("plane:overflow-group-in-group_textboxes")
+        if nbig and len(boxes) >= 2 and case["la"].get("boxes_flow") is not None:
+            ctx.branch("plane:overflow-box-merged-with-others")
+        if len(batch.lines) >= 100:
+            batch.flush()
+
+
+# --------------------------------------------------------------------------- heap order of group_textboxes
+
+def run_heap(ctx: C.Ctx) -> None:
+    """`popMin HEntry.le` of the model against Python's `heapq` on tuples shaped like the entries of
+    `group_textboxes` - `(skip_isany, d, seq1, seq2, obj1, obj2)` with real (unorderable) layout objects at the end -
+    with many equal flags / distances / first numbers, after random pushes and pops (arbitrary internal layout)."""
+    import heapq
+    from pdfminer.layout import LTComponent
+    if ctx.driver is None:
+        return
+    rng = ctx.rng
+    reqs, exp = [], []
+    for _ in range(ctx.n(150, 1500)):
+        n = rng.randint(1, 12)
+        nobj = rng.randint(2, 6)
+        objs = [LTComponent((0, 0, 1, 1)) for _ in range(nobj)]
+        dvals = [F(rng.randint(-3, 3), rng.choice([1, 2, 4]))for _ in range(rng.randint(1, 3))]
+        keys = set()
+        n = min(n, 2 * len(set(dvals)) * nobj * nobj)       # no more entries than distinct keys exist
+        while len(keys) < n:
+            a, b = rng.randrange(nobj), rng.randrange(nobj)
+            keys.add((rng.random() < 0.3, rng.choice(dvals), a, b))
+        entries = [(k[0], k[1], k[2], k[3], objs[k[2]], objs[k[3]]) for k in keys]
+        rng.shuffle(entries)
+        heap = []
+        for e in entries:                       # pushes interleaved with pops: arbitrary heap layouts
+            heapq.heappush(heap, e)
+            if rng.random() < 0.2 and len(heap) > 1:
+                heapq.heappop(heap)
+        order = list(heap)                      # the list as heapq holds it
+        try:
+            m = heapq.heappop(heap)
+        except (TypeError, ValueError) as e:    # two entries compared equal up to the objects
+            ctx.disagree("heapmin", [list(map(str, x[:4])) for x in order], "TypeError: %s" % e, "total order")
+            continue
+        reqs.append("heapmin %d %s" % (len(order), " ".join("%d %s %d %d" % (x[0], L.fs(x[1]), x[2], x[3]) for x in order)))
+        exp.append((order, str(next(i for i, x in enumerate(order) if x is m))))
+        ties = sum(1 for x in order if x[:2] == m[:2])
+        ctx.branch("heapmin:" + ("tie-on-flag-and-distance" if ties > 1 else "unique-distance"))
+        ctx.case(("heapmin", reqs[-1]), len(order) >= 2, branch="gen:heap")
+    for (order, want), out in zip(exp, ctx.driver.ask(reqs) if reqs else []):
+        if out != want:
+            ctx.disagree("heapmin", [[str(v) for v in x[:4]] for x in order], want, out)
+
+
 # --------------------------------------------------------------------------- entry points
 
 def run_corpus(ctx: C.Ctx, batch: Batch) -> None:
@@ -643,6 +873,7 @@ def run(ctx: C.Ctx) -> None:
     batch = Batch(ctx)
     run_corpus(ctx, batch)
     run_isspace(ctx)
+    run_heap(ctx)
     n = ctx.n(1500, 6000)
     big = 40 if ctx.tier == "quick" else 300
     for i in range(n):
@@ -660,6 +891,7 @@ def run(ctx: C.Ctx) -> None:
             float_cross_check(ctx, case)
         if len(batch.lines) >= 200:
             batch.flush()
+    run_large_format(ctx, batch)
     run_pdf(ctx, batch)
     run_forms(ctx)
     batch.flush()
